@@ -100,6 +100,24 @@ Definition iso_eval_cached {P} (E : iengine P) (c : icache P) (t : bytes) (r : i
   | None => (ie_fresh E t r, c')
   end.
 
+(* NOT the code: EvaluateExpression with the outcome of a compiled program taken as final - a program
+   that was found in the cache or compiled now and FAILS at run time is not retried on the env path
+   ("a program that did compile is authoritative").  Refuted in Proofs/IsolationProofs.v
+   (iso_final_interference): the retry is what makes the text-keyed cache transparent. *)
+Definition iso_eval_final {P} (E : iengine P) (c : icache P) (t : bytes) (r : irow) : option ival * icache P :=
+  let '(po, c') :=
+    match iso_cfind t c with
+    | Some p => (Some p, c)
+    | None => match ie_compile E t (iso_shape_of r) with
+              | Some p => (Some p, (t, p) :: c)
+              | None => (None, c)
+              end
+    end in
+  match po with
+  | Some p => (ie_exec E p r, c')
+  | None => (ie_fresh E t r, c')
+  end.
+
 (* ---------- queries ---------- *)
 Inductive icond :=
 | ICnone
